@@ -167,7 +167,10 @@ def lines_neutral(vec, inbuf):
     for c in vec.l:
         if c.v == 0:
             st = c.f[0]
-            if st.b is inbuf:
+            if st.len() == 0:
+                # an empty borrowed line has no meaningful position (the code may return a static "")
+                out.append({'kind': 'E', 'off': None, 'txt': Txt([])})
+            elif st.b is inbuf:
                 out.append({'kind': 'B', 'off': st.s, 'txt': Txt(st.chars())})
             else:
                 out.append({'kind': 'X', 'off': None, 'txt': Txt(st.chars())})
@@ -177,7 +180,8 @@ def lines_neutral(vec, inbuf):
 
 
 def lines_from_native(resp):
-    return [{'kind': k, 'off': off, 'txt': T(t)} for k, off, t in N.parse_lines(resp)]
+    return [({'kind': 'E', 'off': None, 'txt': T('')} if (k in ('B', 'X') and t == '') else
+             {'kind': k, 'off': off, 'txt': T(t)}) for k, off, t in N.parse_lines(resp)]
 
 
 def norm(x):
